@@ -19,9 +19,9 @@ def run(tier):
                           env={"H_SPEC": spec, "H_BUDGETS": "0,2,5,12" if q else "0,1,2,3,5,8,12,30", "H_CHOICES": "8" if q else "14",
                                "H_RSIZE": "7"}))
     plan = [("rep2", "repair2", 8), ("rep1", "repair2", 9), ("eq", "repair2", 8), ("range", "repair2", 8),
-            ("eq", "mutate", 8), ("rep1", "mutate", 10)]
+            ("eq", "mutate", 8)]
     if not q:
-        plan += [("rep1", "crossover", 11), ("eq", "crossover", 10), ("rep2", "crossover", 10), ("rep2", "mutate", 12), ("range", "crossover", 10), ("range", "mutate", 10)]
+        plan += [("rep1", "mutate", 10), ("rep1", "crossover", 11), ("eq", "crossover", 10), ("rep2", "crossover", 10), ("rep2", "mutate", 12), ("range", "crossover", 10), ("range", "mutate", 10)]
     for spec, mode, nch in plan:
         conds.append(Cond("h_repair.py", "stays_in_grammar", to, twin="reach" if mode == "repair2" else None, path_timeout=to / 2,
                           env={"H_SPEC": spec, "H_MODE": mode, "H_CHOICES": str(nch)}))
